@@ -47,7 +47,7 @@ def run(ck):
     ck.cov["checker_cmd"] = "extract && lake build MajoranaVerif.Props.C12 driver && #print axioms audit; harness cpu-c12 | driver (Spec.run + Model.Seq MVP-1/MVP-2) | compare"
     ck.cov["trusted_base"] = TRUSTED_COMMON + [
         "lean/MajoranaVerif/Model/SeqMachine.lean: hand-written cycle-accurate model of proc/mvp1 and proc/mvp2 (built from regenerated instruction semantics, latency table, Cycles() and package constants); tied by comparing status, cycle count and final state with the Go machines on every generated program",
-        "lean/MajoranaVerif/Model/Mmu.lean, Mvp3.lean, Mvp4.lean, TimingTrace.lean: cycle-accurate models of proc/mvp3 and proc/mvp4 and the timing-trace cost functions, tied by exact cycle agreement on every case; MVP-5..8: no cycle-accurate Lean model; their clauses (positivity, instructions/width lower bound, value-independence) are checked dynamically only"]
+        "lean/MajoranaVerif/Model/Mmu.lean, Mvp3.lean, Mvp4.lean, TimingTrace.lean: cycle-accurate models of proc/mvp3, proc/mvp4, proc/mvp5 (Model/Mvp5.lean) and the timing-trace cost functions, tied by exact cycle agreement on every case; MVP-6.0..8: no cycle-accurate Lean model; their clauses (positivity, instructions/width lower bound, value-independence) are checked dynamically only"]
     if not (ok and okh):
         ck.finish("proof")
         return
